@@ -122,6 +122,42 @@ def gen_case(seed):
     ops.append(f"call 0 pget {xs('a/#')}")
     return ops
 
+def overlap_case(seed):
+    """a burst over many keys, and a second burst on the same keys while the flushes of the first are still on their way
+    (they queue behind the command channel and wait for their acknowledgements)"""
+    r = random.Random(seed)
+    nk = r.randint(60, 400)
+    ops = ["connect 0", f"buffer 0 b0 {DELAY}", f"lover b0 {nk} {xs('o')} {DELAY + r.choice([0, 1, 2, 3, 5, 8, 12])}", f"sleep {DELAY * 4}"]
+    for i in r.sample(range(nk), 6):
+        if i % 5: ops.append(f"call 0 get {xs(f'o/{i}')}")
+    return ops
+
+def overlap_oracle(ops, lines):
+    """eventually: per kind and key, what is sent is a subsequence of what was handed over, in order, and it ends with
+    the latest value handed over; nothing else is sent by the buffer"""
+    handed, sent = {}, {}
+    for op, line in zip(ops, lines):
+        t = op.split(" ")
+        if t[0] == "later": handed.setdefault((t[2], untok(t[3])), []).append(json.loads(untok(t[4])))
+        if t[0] == "lover":
+            for rnd in (0, 1):
+                for i in range(int(t[2])): handed.setdefault(("pub" if i % 5 == 0 else "set", f"{untok(t[3])}/{i}"), []).append(rnd * 1000 + i)
+        _, msgs, _ = split_line(line)
+        for m in msgs:
+            c, d, v = msg_json(m)
+            if d == "C" and isinstance(v, dict) and next(iter(v)) in ("set", "publish"):
+                kind = next(iter(v)); sent.setdefault(("set" if kind == "set" else "pub", v[kind]["key"]), []).append(v[kind]["value"])
+    for k, hs in handed.items():
+        ss = sent.get(k, [])
+        if not ss or ss[-1] != hs[-1]:
+            return (len(ops) - 1, f"send buffer: for {k} the values {hs} were handed over, sent were {ss}: the latest value was never sent")
+        it = iter(hs)
+        if not all(any(x == y for y in it) for x in ss):
+            return (len(ops) - 1, f"send buffer: for {k} sent {ss} is not a subsequence of what was handed over {hs}")
+    for k in sent:
+        if k not in handed: return (len(ops) - 1, f"send buffer sent {k} which was never handed over")
+    return None
+
 def untok(t):
     return bytes.fromhex(t[1:]).decode()
 
@@ -220,10 +256,19 @@ def run(v, tier, seed):
     cases.append(("F16-concurrent-spub", ["connect 0", f"call 0 spubinit {xs('s/t')}", "parspub 0 1 6", f"call 0 get {xs('a')}"]))
     n = 60 if tier == "quick" else 1500
     cases += [(f"r{i}", gen_case(seed * 32452843 + i)) for i in range(n)]
+    nov = 8 if tier == "quick" else 100
+    cases += [(f"ov{i}", overlap_case(seed * 15487469 + i)) for i in range(nov)]
     cpath = os.path.join(work, "cases.txt")
     write_cases(cpath, cases)
     impl, model = run_engine("client", "client_driver", cpath, work)
     ncases, nsteps, diffs, A, B = compare_obs(impl, model, project=canon)
+    # overlapping bursts: when each flush goes out is timing; only the results of the closing reads are compared with the model
+    diffs = [d for d in diffs if not d[0].startswith("ov")]
+    for nm, ops in cases:
+        if nm.startswith("ov"):
+            for i, op in enumerate(ops):
+                if op.startswith("call ") and i < len(A.get(nm, [])) and i < len(B.get(nm, [])) and split_line(A[nm][i])[0] != split_line(B[nm][i])[0]:
+                    diffs.append((nm, i, A[nm][i], B[nm][i])); break
     calls = sum(1 for _, ops in cases for o in ops if o.startswith("call "))
     partasks = sum(int(o.split(" ")[2]) for _, ops in cases for o in ops if o.startswith("par "))
     laters = sum(1 for _, ops in cases for o in ops if o.startswith("later "))
@@ -234,7 +279,7 @@ def run(v, tier, seed):
             v.violation({"what": "the client engine did not complete this case", "case": nm, "engine": "client", "driver": "client_driver", "ops": ops, "broken_obligation": "correspondence client/C20"}, no_input=True)
             break
         if any(o.startswith("par ") or o.startswith("sleep ") for o in ops): nontrivial.add(nm)
-        bad = api_oracle(ops, lines, known=v.known)
+        bad = overlap_oracle(ops, lines) if nm.startswith("ov") else api_oracle(ops, lines, known=v.known)
         if bad:
             step, msg = bad
             v.violation({"what": msg, "case": nm, "engine": "client", "driver": "client_driver", "ops": ops[:step + 1], "ops_readable": [decode_tok(o) for o in ops[:step + 1]], "observed": [decode_tok(l)[:600] for l in lines[max(0, step - 2):step + 1]]})
